@@ -1113,3 +1113,61 @@ func (r *Run) StoreContext(fnName, prefix, wantCtx, why string) {
 	}
 	r.viol("K2-store-context", fnName, construct, "store not found", why, file, line)
 }
+
+// NoLoadAfterStore: in fn, no load of the memory at canonical address path p is reachable after a
+// store to it (the value used later is the one read before the store).
+func (r *Run) NoLoadAfterStore(fnName, p, why string) {
+	fn := r.fn(fnName)
+	if fn == nil {
+		return
+	}
+	p = r.X(p)
+	env := r.P.Env(fn)
+	file, line := r.P.FnPos(fn)
+	construct := "load-before-store " + p
+	var stores []*ssa.Store
+	var loads []*ssa.UnOp
+	for _, b := range fn.Blocks {
+		for _, in := range b.Instrs {
+			switch x := in.(type) {
+			case *ssa.Store:
+				if !isLocalAddr(x.Addr) && env.of(x.Addr).String() == p {
+					stores = append(stores, x)
+				}
+			case *ssa.UnOp:
+				if x.Op.String() == "*" {
+					if _, isAlloc := x.X.(*ssa.Alloc); !isAlloc && env.of(x.X).String() == p {
+						loads = append(loads, x)
+					}
+				}
+			}
+		}
+	}
+	if len(stores) == 0 || len(loads) == 0 {
+		r.viol("K2-load-before-store", fnName, construct, fmt.Sprintf("expected both a load and a store of %s in %s (found %d loads, %d stores)", p, fnName, len(loads), len(stores)), why, file, line)
+		return
+	}
+	for _, st := range stores {
+		// blocks reachable strictly after the store
+		seen := map[*ssa.BasicBlock]bool{}
+		work := append([]*ssa.BasicBlock(nil), st.Block().Succs...)
+		for len(work) > 0 {
+			b := work[len(work)-1]
+			work = work[:len(work)-1]
+			if seen[b] {
+				continue
+			}
+			seen[b] = true
+			work = append(work, b.Succs...)
+		}
+		for _, ld := range loads {
+			after := seen[ld.Block()] || (ld.Block() == st.Block() && instrIndex(ld) > instrIndex(st))
+			if after {
+				f2, l2 := r.P.Pos(ld.Pos())
+				r.viol("K2-load-before-store", fnName, construct, fmt.Sprintf("%s is read at %s:%d after it has been overwritten: the value used is the overwritten one, not the entry's original", p, f2, l2), why, f2, l2)
+				return
+			}
+		}
+	}
+	r.pass("K2-load-before-store", fnName, construct, fmt.Sprintf("%d load(s) all before %d store(s)", len(loads), len(stores)), why, file, line)
+}
